@@ -706,7 +706,7 @@ def search(ctx, broken):
     for fc in first_cases:
         if fc.startswith('c17.fb '): mal.insert(0, unhex(fc.split()[1]))
     c1 = ['c17.fb ' + hexs(b) for b in mal]
-    r1 = ctx.impl(c1); ncases += len(c1)
+    r1 = ctx.impl(c1, per_case_timeout=15); ncases += len(c1)
     for c, b, r in zip(c1, mal, r1):
         distinct.add(b)
         if r[0] not in ('ok', 'err'):
@@ -804,7 +804,7 @@ def search(ctx, broken):
     for fc in first_cases:
         if fc.startswith('c17.tdfdec '): mal.insert(0, unhex(fc.split()[1]))
     c1 = ['c17.tdfdec ' + hexs(b) for b in mal]
-    r1 = ctx.impl(c1); ncases += len(c1)
+    r1 = ctx.impl(c1, per_case_timeout=15); ncases += len(c1)
     for c, b, r in zip(c1, mal, r1):
         distinct.add(b)
         if r[0] not in ('ok', 'err'):
@@ -814,33 +814,78 @@ def search(ctx, broken):
             'samples': ['c17.psf2 ' + fonts[0].spec()[:120], c1[0][:160]], 'builtin_fonts': len([l for l in labels if l.startswith('c17.builtin')])}
 
 # ------------------------------------------------------------------------------------------------ replay
+def font_from_spec(a):
+    w, h, length, n, gh = (int(x) for x in a[:5]); d = unhex(a[5])
+    return Font(w, h, length, [d[i * gh:(i + 1) * gh] for i in range(n)])
+
+def tfonts_from_spec(a):
+    i = 0; k = int(a[i]); i += 1; out = []
+    for _ in range(k):
+        name = unhex(a[i]); ty = int(a[i + 1]); sp = int(a[i + 2]); m = int(a[i + 3]); i += 4
+        gl = {}
+        for _ in range(m):
+            gl[int(a[i])] = (int(a[i + 1]), int(a[i + 2]), unhex(a[i + 3])); i += 4
+        out.append(TFont(name, ty, sp, gl))
+    return out
+
 def replay(ctx, body):
+    """re-run the recorded input through the implementation oracle (and the model where it has an entry point);
+    exit code 1 when the input still fails the property, 0 when it passes now"""
     from vlib import driver
     inp = body.get('input')
-    print('replay', ID, str(inp)[:300])
+    sig = body.get('signature', '')
+    print('replay', ID, sig, str(inp)[:300])
     ok, out = driver.stage_build()
-    if isinstance(inp, str) and inp.startswith('c17.'):
-        case = inp.split('…')[0]
-        r = ctx.impl([case], per_case_timeout=30)[0]
-        print('implementation:', str(r)[:1500])
-        a = case.split()
-        expr = None
-        if a[0] == 'c17.fb': expr = 'run_fb ' + clist(unhex(a[1]))
-        elif a[0] == 'c17.tdfdec': expr = 'run_tdfdec ' + clist(unhex(a[1]))
-        elif a[0] in ('c17.psf2', 'c17.raw'):
-            gh = int(a[5]); d = unhex(a[6]); n = int(a[4])
-            f = Font(int(a[1]), int(a[2]), int(a[3]), [d[i * gh:(i + 1) * gh] for i in range(n)])
-            expr = 'run_%s %s' % (a[0][4:], f.coq())
-        if expr:
-            m = model_eval(ctx, [expr])
-            print('model:', str(m[0])[:1500])
-        print('expected:', str(body.get('expected'))[:600]); print('detail:', body.get('detail'))
-        sig = body.get('signature', '')
-        if sig.endswith(('-panic', '-abort', '-timeout', '-oom', '-killed', '-stackoverflow')):
-            return 0 if r[0] in ('ok', 'err') else 1
-        return 1
-    print(json.dumps(body, indent=1)[:3000])
-    return 1
+    if not (isinstance(inp, str) and inp.startswith('c17.')) or '…' in inp:
+        print(json.dumps(body, indent=1)[:3000]); print('input was truncated when recorded; cannot re-run'); return 1
+    a = inp.split()
+    kind = a[0]
+    run = lambda c: ctx.impl([c], per_case_timeout=30)[0]
+    r = run(inp)
+    print('implementation:', str(r)[:600])
+    expr = None; verdict = None
+    if kind == 'c17.fb':
+        expr = 'run_fb ' + clist(unhex(a[1])); verdict = r[0] in ('ok', 'err')
+    elif kind == 'c17.tdfdec':
+        expr = 'run_tdfdec ' + clist(unhex(a[1])); verdict = r[0] in ('ok', 'err')
+    elif kind == 'c17.dcs':
+        verdict = r[0] == 'ok'
+    elif kind in ('c17.psf2', 'c17.raw', 'c17.ansi', 'c17.embed'):
+        f = font_from_spec(a[2:] if kind in ('c17.ansi', 'c17.embed') else a[1:])
+        expr = {'c17.psf2': 'run_psf2 ', 'c17.raw': 'run_raw '}.get(kind)
+        if expr: expr += f.coq()
+        if r[0] != 'ok': verdict = False
+        elif kind == 'c17.psf2':
+            r2 = run('c17.fb ' + hexs(r[1])); print('from_bytes of that:', str(r2)[:300]); verdict = r2[0] == 'ok' and r2[1] == f.obs()
+        elif kind == 'c17.raw':
+            r2 = run('c17.c8 8 %d %s' % (f.h, hexs(r[1]))); r3 = run('c17.basic 8 %d %s' % (f.h, hexs(r[1])))
+            print('create_8 of that:', str(r2)[:300]); verdict = bytes(r[1]) == f.raw() and r2[0] == 'ok' and r2[1] == f.obs() and r3 == r2
+        elif kind == 'c17.ansi':
+            r2 = run('c17.dcs %s %s' % (a[1], hexs(r[1]))); print('parser fed with that:', str(r2)[:300])
+            verdict = r2[0] == 'ok' and r2[1] == [0, 1] + f.obs()
+            if not verdict and sniffs_as_psf(f.raw()): print('(raw data begins with a PSF magic: known finding %s)' % KNOWN_DCS)
+        else:
+            verdict = r[1] == f.obs()
+    elif kind == 'c17.tdfenc':
+        fs = tfonts_from_spec(a[2:]); single = a[1] == 'single'
+        expr = 'run_tdfenc %s [%s]' % ('true' if single else 'false', ';'.join(f.coq() for f in fs))
+        if r[0] == 'ok':
+            r2 = run('c17.tdfdec ' + hexs(r[1])); print('from_tdf_bytes of that:', str(r2)[:300])
+            verdict = False
+            if r2[0] == 'ok':
+                got = parse_tdfdec(r2[1]); want = fs[:1] if single else fs
+                verdict = len(got) == len(want) and all(
+                    g[0] == f.name and g[1] == f.type and g[2] == f.spaces and g[4] == 0 and
+                    (lambda back: bool(back) and len(back) == 1 and back[0].glyphs == f.glyphs)(ref_tdf_read(g[5]))
+                    for g, f in zip(got, want))
+        else:
+            verdict = r[0] == 'err' and sig == 'tdf-u16-overflow'     # an error instead of a wrapped file is the repaired behaviour
+    if expr:
+        m = model_eval(ctx, [expr])
+        print('model:', str(m[0])[:600])
+    print('expected:', str(body.get('expected'))[:400]); print('detail:', body.get('detail'))
+    print('oracle verdict now:', {True: 'passes', False: 'FAILS', None: 'not re-evaluated'}[verdict])
+    return 0 if verdict else 1
 
 LEVEL_TEXT = ('Machine-checked proof (Coq, closed under the global context) over models of the font code: for every font of width 8, height 1..32, 256 or 512 glyphs and arbitrary row bytes '
               'from_bytes(to_psf2_bytes f) = f (also for every width/height < 2^31 and up to 0xD800 glyphs); create_8/from_basic(convert_to_u8_data f) = f; the XBin, ADF/IDF and IcyDraw font slots '
